@@ -216,6 +216,17 @@ def _cipher(case, R, d):
         R.check(sv.ciphertext[:16] != sv_b.ciphertext[:16], "fresh-iv", "iv", "two encryptions share the IV")
         R.check(sv.ciphertext[16:] != sv_b.ciphertext[16:], "fresh-iv", "body", "two encryptions share the body")
         R.check(c3[:16] not in (sv.ciphertext[:16], sv_b.ciphertext[:16]), "fresh-iv", "iv-provider", "provider reused an IV")
+        # ... also when the application re-seeds the process-wide PRNG before each encryption
+        import random
+        prng_state = random.getstate()
+        try:
+            ivs = []
+            for _ in range(2):
+                random.seed(20240917)
+                ivs.append(AesProvider(key).encrypt(p)[:16])
+        finally:
+            random.setstate(prng_state)
+        R.check(ivs[0] != ivs[1], "fresh-iv", "prng-reseeded", "after random.seed(k) the same IV is used again: the IV is predictable")
         # wrong key
         with cc.KeyFile(_write_key(d, "k2", key2)) as ctx:
             try:
